@@ -458,6 +458,43 @@ def r7_operators_for_containers(ctx, cls, mod):
                   "with only __iter__/__getitem__) raises AttributeError although `in` works on the value")
 
 
+ROUNDING = {'__floor__': 'math.floor', '__ceil__': 'math.ceil', '__trunc__': 'math.trunc', '__round__': 'round'}
+
+
+def r3b_rounding(ctx, sym, cls, mod):
+    """math.floor/ceil/trunc and round() ask the type for its dunder but fall back to __float__ (floor, ceil, trunc)
+    when it has none: the proxy's own dunder, executed on a value without these dunders, must go through the builtin
+    (the result may be re-wrapped) instead of calling the value's dunder directly."""
+    from .. import symexec
+    for fn in cls.body:
+        if not isinstance(fn, ast.FunctionDef) or fn.name not in ROUNDING:
+            continue
+        ctx.analysed_function(mod, fn)
+        rec = symexec.Recorder()
+        value = Obj('student-value')
+        value.attrs['__closed__'] = True
+        me = symexec.self_obj(mod, cls.name, closed=True, value=value, _actual_value=value)
+        symexec.method(me, '_clone_this_result', lambda v, *a, **k: Obj('proxy', wrapped=v))
+        want = ROUNDING[fn.name]
+        calls_ = {b: rec.stub(b, ret='result-of:' + b) for b in ROUNDING.values()}
+        calls_['SandboxResult'] = lambda v, *a, **k: Obj('proxy', wrapped=v)
+        fd = symexec.new_fd(sym, mod, calls=calls_)
+        got, raised = symexec.run(fd, fn, [], bound_self=me, what='SandboxResult.' + fn.name)
+        inner = got.attrs.get('wrapped') if isinstance(got, Obj) else got
+        used = [e for e in rec.named(want) if e[1][:1] == (value,)]
+        if fn.name == '__round__' and raised is not None and raised.kind == 'AttributeError':
+            # round() itself requires __round__: asking the value for it directly is what the builtin does
+            ctx.ok('R3', 'SandboxResult.__round__:through-the-builtin', nontrivial=False)
+            continue
+        ctx.check(raised is None and len(used) == 1 and inner == 'result-of:' + want, 'R3',
+                  'SandboxResult.%s:through-the-builtin' % fn.name, mod, fn,
+                  "%s on a proxied value that has no %s of its own %s; %s(<value>) works for it (through __float__)" % (
+                      fn.name, fn.name, 'raises %s' % raised.kind if raised is not None else 'returns %r' % (inner,),
+                      want),
+                  "math.floor(call('measure')) for a result object that defines only __float__ raises AttributeError "
+                  "although math.floor works on the object itself")
+
+
 INPLACE = ['__iadd__', '__isub__', '__imul__', '__imatmul__', '__itruediv__', '__ifloordiv__', '__imod__', '__ipow__',
            '__ilshift__', '__irshift__', '__iand__', '__ixor__', '__ior__']
 
@@ -501,6 +538,7 @@ def run(ctx):
     methods = r1_slots(ctx, cls, mod)
     r2_no_output(ctx, sym, cls, mod)
     r3_exact_conversions(ctx, cls, mod)
+    r3b_rounding(ctx, sym, cls, mod)
     unresolved = r5_references(ctx, sym, cls, mod)
     r4_operator_semantics(ctx, cls, mod, methods, unresolved)
     r4c_comparisons(ctx, cls, mod, methods)
